@@ -45,12 +45,11 @@ Print Assumptions C04_root_first.
 
 (* ---- SortGraph's new child array ---- *)
 (* [crel shp ch ch']: the same set of children, none listed more often, the shape children permuted.
-   [order_ok] is the exact side condition of the rootShapeOrder branch: not the root, or a different
-   number of ids than the root has shape children, or a permutation of them. *)
+   No side condition on the root shape order: it is applied only when it is a permutation of the
+   root's shape children (std::is_permutation guard), for every rootShapeOrder [rso]. *)
 Theorem C04_rebuild_children : forall ob rso g is_root ch,
   (forall x, In x ch -> x = NPOS \/ x < vlen g) ->
   (forall x, kind_at g x K_NODE = true -> kind_at g x K_SHAPE = false) ->
-  order_ok rso g is_root ch ->
   crel (fun x => kind_at g x K_SHAPE) ch (rebuild ob rso is_root g ch).
 Proof. exact rebuild_spec. Qed.
 Print Assumptions C04_rebuild_children.
@@ -59,7 +58,6 @@ Print Assumptions C04_rebuild_children.
 Theorem C04_rebuild_permutation : forall ob rso g is_root ch,
   (forall x, In x ch -> x = NPOS \/ x < vlen g) ->
   (forall x, kind_at g x K_NODE = true -> kind_at g x K_SHAPE = false) ->
-  order_ok rso g is_root ch ->
   (forall x, x <> NPOS -> node_first ob g x = false -> kind_at g x K_SHAPE = false -> (cnt ch x <= 1)%nat) ->
   Permutation (rebuild ob rso is_root g ch) ch.
 Proof. exact rebuild_permutation. Qed.
@@ -74,7 +72,7 @@ Proof. exact rebuild_fixed_point. Qed.
 Print Assumptions C04_rebuild_fixed_point.
 
 (* after the whole sort: every block is the original one up to its child array, which holds the same
-   set of children, none more often than before (no side condition: rootShapeOrder is empty) *)
+   set of children, none more often than before *)
 Theorem C04_sort_graph_children : forall fuel ob g st i b0 b,
   refs_in_range g -> node_shape_excl g -> pretty_indices fuel ob g = Ok st ->
   vget g i = Some b0 -> vget (st_gr st) i = Some b ->
@@ -138,77 +136,49 @@ Theorem C04_prune_only_unreferenced : forall fuel h g root c,
 Proof. exact prune_commutes. Qed.
 Print Assumptions C04_prune_only_unreferenced.
 
-(* ---- SetShapeOrder: under the hypotheses the proofs force ---- *)
-(* root = block 0 (or no node at all): the counter starts at 0 *)
+(* ---- SetShapeOrder: for every graph, every position of the root node, every name list
+        (duplicates, unresolved names, any count) ---- *)
 Theorem C04_shape_order_perm : forall fuel ob names g st,
-  vlen g < NPOS -> (root_node g = Some 0 \/ root_node g = None) ->
-  shape_order_indices fuel ob names g = Ok st -> is_perm (st_nidx st) (vlen g).
+  vlen g < NPOS -> shape_order_indices fuel ob names g = Ok st -> is_perm (st_nidx st) (vlen g).
 Proof. exact shape_order_perm. Qed.
 Print Assumptions C04_shape_order_perm.
 
-Theorem C04_shape_order_root_first : forall fuel ob names g st,
-  vlen g < NPOS -> root_node g = Some 0 -> kind_at g 0 K_COLL = false ->
-  shape_order_indices fuel ob names g = Ok st -> vget (st_nidx st) 0 = Some 0.
+(* the root node (first node in block order, GetRootNode) gets index 0 *)
+Theorem C04_shape_order_root_first : forall fuel ob names g st r,
+  vlen g < NPOS -> root_node g = Some r -> kind_at g r K_COLL = false ->
+  shape_order_indices fuel ob names g = Ok st -> vget (st_nidx st) r = Some 0.
 Proof. exact shape_order_root_first. Qed.
 Print Assumptions C04_shape_order_root_first.
 
-(* the resolved names are a permutation of the root's shape children, or differ in number *)
 Theorem C04_shape_order_children : forall fuel ob names g st,
   refs_in_range g -> node_shape_excl g ->
-  (forall b0, vget g 0 = Some b0 -> order_ok (shape_ids g names) g true (s_children b0)) ->
   shape_order_indices fuel ob names g = Ok st -> grel g (st_gr st).
 Proof. exact shape_order_children. Qed.
 Print Assumptions C04_shape_order_children.
 
-Theorem C04_shape_order_view : forall h g0 st g',
-  Inv h -> blocks h = map to_block g0 ->
-  is_perm (st_nidx st) (vlen g0) -> grel g0 (st_gr st) -> reorder_g (st_nidx st) (st_gr st) = Ok g' ->
-  exists h',
-    set_block_order (hdr_with h (st_gr st)) (st_nidx st) = Ok h' /\ Inv h' /\ blocks h' = map to_block g' /\
-    (forall i o, vget (st_nidx st) i = Some o -> vget (view h') o = vget (view (hdr_with h (st_gr st))) i).
-Proof. exact order_view. Qed.
-Print Assumptions C04_shape_order_view.
-
-(* ---- SetShapeOrder outside them ---- *)
-(* root in a block other than 0: for EVERY graph and name list the order is not a permutation and
-   SetBlockOrder stores outside its vectors *)
-Theorem C04_shape_order_root_nonzero_faults : forall fuel ob names g st r,
-  vlen g + vlen g < 4294967296 -> root_node g = Some r -> 0 < r ->
+(* SetBlockOrder always receives a permutation and stores inside its vectors *)
+Theorem C04_shape_order_apply_ok : forall fuel ob names g st,
+  vlen g < NPOS -> refs_in_range g -> node_shape_excl g ->
   shape_order_indices fuel ob names g = Ok st ->
-  ~ is_perm (st_nidx st) (vlen g) /\ reorder_g (st_nidx st) (st_gr st) = Fault.
-Proof. exact shape_order_root_nonzero_faults. Qed.
-Print Assumptions C04_shape_order_root_nonzero_faults.
+  exists g', reorder_g (st_nidx st) (st_gr st) = Ok g' /\ vlen g' = vlen g.
+Proof. exact shape_order_apply_ok. Qed.
+Print Assumptions C04_shape_order_apply_ok.
 
-(* a two-block witness (shape in block 0, root in block 1): the order is [2; 1] *)
-Theorem C04_set_shape_order_refuted :
-  exists m names,
-    sm_unk m = false /\ refs_in_range (sm_g m) /\ node_shape_excl (sm_g m) /\
-    root_node (sm_g m) = Some 1 /\
-    (exists st, shape_order_indices fuel100 (sm_ob m) names (sm_g m) = Ok st /\ st_nidx st = [2; 1]) /\
-    set_shape_order fuel100 names m = Fault.
-Proof. exact set_shape_order_refuted. Qed.
-Print Assumptions C04_set_shape_order_refuted.
-
-(* root = block 0, one name twice: a child is listed twice *)
-Theorem C04_shape_order_duplicate_refuted :
-  exists m names st,
-    refs_in_range (sm_g m) /\ node_shape_excl (sm_g m) /\ root_node (sm_g m) = Some 0 /\
-    vlen names = vlen (indices_where (has_kind K_SHAPE) 0 (sm_g m)) /\
-    shape_order_indices fuel100 (sm_ob m) names (sm_g m) = Ok st /\
-    children_of (sm_g m) 0 = [1; 2] /\ children_of (st_gr st) 0 = [1; 1; 2].
-Proof. exact shape_order_duplicate_refuted. Qed.
-Print Assumptions C04_shape_order_duplicate_refuted.
-
-(* root = block 0, a name that does not resolve and a shape below another node: the root lists
-   itself as a child and loses a shape *)
-Theorem C04_shape_order_missing_refuted :
-  exists m names st,
-    refs_in_range (sm_g m) /\ node_shape_excl (sm_g m) /\ root_node (sm_g m) = Some 0 /\
-    vlen names = vlen (indices_where (has_kind K_SHAPE) 0 (sm_g m)) /\
-    shape_order_indices fuel100 (sm_ob m) names (sm_g m) = Ok st /\
-    children_of (sm_g m) 0 = [1; 3] /\ children_of (st_gr st) 0 = [3; 0; 1].
-Proof. exact shape_order_missing_refuted. Qed.
-Print Assumptions C04_shape_order_missing_refuted.
+(* the whole of SetShapeOrder on a consistent model: either a guarded no-op, or the blocks are
+   permuted by a bijection, the header stays consistent and every reference keeps its referent *)
+Theorem C04_shape_order_view : forall fuel names m m' h,
+  Inv h -> blocks h = map to_block (sm_g m) -> refs_in_range (sm_g m) -> node_shape_excl (sm_g m) ->
+  set_shape_order fuel names m = Ok m' ->
+  m' = m \/
+  exists st h',
+    shape_order_indices fuel (sm_ob m) names (sm_g m) = Ok st /\
+    is_perm (st_nidx st) (vlen (sm_g m)) /\
+    grel (sm_g m) (st_gr st) /\
+    set_block_order (hdr_with h (st_gr st)) (st_nidx st) = Ok h' /\
+    Inv h' /\ blocks h' = map to_block (sm_g m') /\
+    (forall i o, vget (st_nidx st) i = Some o -> vget (view h') o = vget (view (hdr_with h (st_gr st))) i).
+Proof. exact set_shape_order_view. Qed.
+Print Assumptions C04_shape_order_view.
 
 (* ---- non-vacuity: a model on which every hypothesis holds and the sort runs ---- *)
 (* block 0: extra data (loose); 1: root node [shape 3; node 2; empty]; 2: node [shape 4]; 3, 4: shapes *)
@@ -238,15 +208,27 @@ Example C04_example_sorted :
   end.
 Proof. vm_compute. split; reflexivity. Qed.
 
-(* the shape order hypothesis is satisfiable: root 0 with shapes named 1, 2, order [2; 1] *)
+(* the inputs on which the unrepaired SetShapeOrder failed: root in block 1 (was: order [2; 1], a store
+   outside the vector), one name twice (was: children [1; 1; 2]), an unresolved name with a shape
+   below another node (was: children [3; 0; 1]) *)
+Example C04_example_root_nonzero :
+  match set_shape_order fuel100 [1] w_root1 with
+  | Ok m' => map s_kind (sm_g m') = [2; 8] /\ map s_children (sm_g m') = [[1]; []]
+  | _ => False
+  end.
+Proof. vm_compute. split; reflexivity. Qed.
+
+Example C04_example_bad_names :
+  match set_shape_order fuel100 [1; 1] w_dup, set_shape_order fuel100 [2; 9] w_missing with
+  | Ok m1, Ok m2 => map s_children (sm_g m1) = [[1; 2]; []; []] /\ map s_children (sm_g m2) = [[1; 3]; [2]; []; []] /\ map s_kind (sm_g m2) = [2; 2; 8; 8]
+  | _, _ => False
+  end.
+Proof. vm_compute. repeat split; reflexivity. Qed.
+
+(* a valid order is applied: root 0 with shapes named 1, 2, order [2; 1] *)
 Example C04_example_order :
-  order_ok (shape_ids (sm_g w_dup) [2; 1]) (sm_g w_dup) true [1; 2] /\
   match set_shape_order fuel100 [2; 1] w_dup with
   | Ok m' => map s_name (sm_g m') = [0; 2; 1] /\ map s_children (sm_g m') = [[1; 2]; []; []]
   | _ => False
   end.
-Proof.
-  split.
-  - right. right. vm_compute. apply perm_swap.
-  - vm_compute. split; reflexivity.
-Qed.
+Proof. vm_compute. split; reflexivity. Qed.
